@@ -362,15 +362,17 @@ pub fn menu(th: &Theory, run: &Run, b: &Bounds, explored_ops: &[Op]) -> Vec<Op> 
     m.extend(news);
     // Member types are dependent types: `x: m.S` is a typing judgement that the generated API cannot enforce.
     // The explored inputs respect it (an element lives in the model element it was created in): no direct writes to
-    // the membership predicate or to a morphism-application graph (define_ is the API for that), member relations
-    // only on members of the receiver, f@x only for x in dom(f), equations only between members of the same parents.
+    // the membership predicate, member relations only on members of the receiver, f@x only for x in dom(f) and with a
+    // value in cod(f), equations only between members of the same parents.
     if th.types.iter().any(|t| t.member_of.is_some()) {
         let mut member: HashSet<(usize, usize)> = HashSet::new();
         let mut dom_of: HashMap<usize, Vec<usize>> = HashMap::new();
+        let mut cod_of: HashMap<usize, Vec<usize>> = HashMap::new();
         for a in &run.assertions {
             if let Assertion::Insert { rel, args } = a {
                 if th.types.iter().any(|t| t.membership == Some(*rel)) { member.insert((args[0], args[1])); }
                 if th.rels[*rel].mor_sig.as_deref() == Some("dom") { dom_of.entry(args[0]).or_default().push(args[1]); }
+                if th.rels[*rel].mor_sig.as_deref() == Some("cod") { cod_of.entry(args[0]).or_default().push(args[1]); }
             }
         }
         let is_member_ty = |t: usize| th.types[t].member_of.is_some();
@@ -379,7 +381,10 @@ pub fn menu(th: &Theory, run: &Run, b: &Bounds, explored_ops: &[Op]) -> Vec<Op> 
             let rel = &th.rels[r];
             if th.types.iter().any(|t| t.membership == Some(r)) { return false; }
             if rel.mor_app {
-                return args.len() == 2 && dom_of.get(&args[0]).map_or(false, |ds| ds.iter().any(|d| member.contains(&(*d, args[1]))));
+                // f@x for x in dom(f); a directly asserted value must be a member of cod(f)
+                let in_dom = dom_of.get(&args[0]).map_or(false, |ds| ds.iter().any(|d| member.contains(&(*d, args[1]))));
+                let in_cod = args.len() < 3 || cod_of.get(&args[0]).map_or(false, |cs| cs.iter().any(|c| member.contains(&(*c, args[2]))));
+                return in_dom && in_cod;
             }
             if rel.member_of.is_some() {
                 return (1..args.len()).all(|i| !is_member_ty(rel.arity[i]) || member.contains(&(args[0], args[i])));
@@ -387,7 +392,7 @@ pub fn menu(th: &Theory, run: &Run, b: &Bounds, explored_ops: &[Op]) -> Vec<Op> 
             (0..args.len()).all(|i| !is_member_ty(rel.arity[i]))
         };
         m.retain(|op| match op {
-            Op::Insert(r, a) => !th.rels[*r].mor_app && well_typed(*r, a),
+            Op::Insert(r, a) => well_typed(*r, a),
             Op::Define(r, a) => well_typed(*r, a),
             Op::Equate(t, a, b) => !is_member_ty(*t) || parents(*a) == parents(*b),
             Op::CloseUntil(Cond::Holds(r, a)) => th.types.iter().any(|t| t.membership == Some(*r)) || well_typed(*r, a),
